@@ -75,7 +75,7 @@ fn pssm_json(c: &Case) -> Vec<Vec<i64>> {
 
 pub fn record_c11(rec: &mut Recorder, seed: u64, thorough: bool) {
     let mut rng = rng(seed, 11);
-    let n = if thorough { 400 } else { 90 };
+    let n = if thorough { 500 } else { 150 };
     for it in 0..n {
         let m = if it % 10 == 9 { rng.gen_range(7..=8) } else { 1 + it % 6 };
         let c = gen_case(&mut rng, m, it);
